@@ -30,6 +30,9 @@ ENUM_POOL = [["A", "B"], ["ACTIVE", "PAUSED", "COMPLETE"], ["ACT", "ACTIVE"], ['
              ["v1", "v2"], ["007", "8"], ["A", "AB", "ABC"]]
 KINDS = ["CONST", "ENUM", "BOOLEAN", "NUMBER", "DATE", "ISO8601"]
 NAMES = c12.CLEAN_NAMES + ["A.B", "MY_FIELD", "A-B", "Ünï", "CONTENT", "WS", "名前", "x/y"]
+# META.CONTRACT only: FIELD["q r"] keeps its quotes in the field name -- double quotes, backslashes, blanks and a tab inside
+# the (escaped, repo 481c8b3) name literal of the rule the value fragment is taken from.  No line break: take() cuts lines.
+QUOTED_NAMES = [n for n in c12.CONTRACT_ONLY_NAMES if n.startswith('"') and "\\n" not in n]
 
 FINDING = {"DATE": "C13-date-misread", "ISO8601": "C13-iso8601-misread", "NUMBER": "C13-number-int-limit",
            "CONST": "C13-const-text-unsafe", "ENUM": "C13-enum-text-unsafe"}
@@ -295,10 +298,19 @@ def run(ctx):
         for ch in (lambda m: [m], lambda m: ["REQ", m], lambda m: ["OPT", m], lambda m: [m, "REQ"]):
             do("FIELDS", [("K", ch(gen_kind_member(rng, k)))])
             do("CONTRACT", [("K", ch(gen_kind_member(rng, k)))])
+    for qn in QUOTED_NAMES:
+        for k in KINDS:
+            do("CONTRACT", [(qn, ["REQ", gen_kind_member(rng, k)])])
+    for tn in ('"a\\"b\\\\c"', '"My Type"'):
+        do("CONTRACT", [('"q r"', ["CONST[X]"]), ("K", ["TYPE[BOOLEAN]"])], tn)
     for _ in range(ctx.scale(150, 3000)):
         n = rng.choice([1, 2, 3, 4])
         fields = [(rng.choice(NAMES), wrap(rng, gen_kind_member(rng, rng.choice(KINDS)))) for _ in range(n)]
-        do(rng.choice(["FIELDS", "CONTRACT"]), fields)
+        route = rng.choice(["FIELDS", "CONTRACT"])
+        if route == "CONTRACT" and rng.random() < 0.3:
+            fields.append((rng.choice(QUOTED_NAMES), wrap(rng, gen_kind_member(rng, rng.choice(KINDS)))))
+            ctx.hist("quoted_field_name", 1)
+        do(route, fields)
     ctx.extra["compiled_field_rules"] = len(rules)
     # ---- derivations from the implementation's grammar text ----
     words_of = {}
